@@ -47,6 +47,10 @@ def mps_sum(ctx, idx, rng):
     if inv is None:
         _rel(ctx, 'mps-sum.dense', refs.dense_state(r.A), va - vb if sub else va + vb, ts(a) + ts(b), detail)
         _rel(ctx, 'as_vector.dense', r.as_vector(), refs.dense_state(r.A), ts(a) + ts(b), detail)
+        if idx % 2:
+            def later(r=r, want=(va - vb if sub else va + vb), sc=ts(a) + ts(b)):
+                _rel(ctx, 'mps-sum.result-still-valid-after-later-calls', refs.dense_state(r.A), want, sc, None)
+            ctx.hold(later)
         if L > 1:
             ctx.ok('mps-sum.bond-dims-add', r.bond_dims[1:-1] == [x + y for x, y in zip(a.bond_dims[1:-1], b.bond_dims[1:-1])], 'inner bond dims must add', detail)
     if inv is None and idx % 2 == 0:
